@@ -49,7 +49,6 @@ var c11ResidualVar = map[string]varResidual{
 	"yqlib.shuffleOperator$1/a[i]#2":                                       {"both", "SHUFFLE: as above"},
 	"yqlib.shuffleOperator$1/a[j]":                                         {"both", "SHUFFLE: as above"},
 	"yqlib.shuffleOperator$1/a[j]#2":                                       {"both", "SHUFFLE: as above"},
-	"yqlib.sliceArrayOperator/lhsNode.Content[i]":                          {"upper", "CLAMPED: i < relativeSecondNumber, which is the requested end when 0 <= end <= len, len+end (< len) for a negative end, and len otherwise"},
 	"yqlib.sortKeys/keys[index / 2]":                                       {"upper", "HALF: keys has len(Content)/2 slots and index is an even position below len(Content)"},
 	"yqlib.sortKeys/sortedContent[index * 2]":                              {"upper", "HALF: sortedContent has len(Content) slots, index < len(keys) = len(Content)/2"},
 	"yqlib.sortKeys/sortedContent[1 + (index * 2)]":                        {"upper", "HALF: as above; len(Content) is even for a mapping"},
@@ -941,13 +940,19 @@ func constantString(c *ssa.Const) string {
 	return constant.StringVal(c.Value)
 }
 
-// ruleP4c: the CSVRECT invariant of the residual table holds only while the
-// csv readers keep encoding/csv's default FieldsPerRecord (0: every record
-// must have the field count of the first). Any store to that field is reported.
-func ruleP4c(c *Ctx) {
+// ruleCsvReaderOptions: the csv readers keep encoding/csv's defaults apart from
+// the separator. FieldsPerRecord (0: every record has the field count of the
+// first) carries the CSVRECT invariant of the residual index table;
+// TrimLeadingSpace, LazyQuotes and Comment change which bytes are data.
+func ruleCsvReaderOptions(c *Ctx, rule string, only map[string]bool) {
 	r := c.R
-	r.Rule("P4c", "csv readers keep the default FieldsPerRecord (records are rectangular)", 1)
-	n := 0
+	consequence := map[string]string{
+		"FieldsPerRecord":  "the csv reader accepts records of varying length; createObject indexes a data row by header position and panics on a shorter row",
+		"TrimLeadingSpace": "leading blanks of unquoted fields are dropped (in TSV the blank is the TAB: empty cells vanish and rows no longer match the header): decode(encode(v)) != v",
+		"LazyQuotes":       "quotes inside fields are read leniently: malformed input is accepted with a different value instead of an error",
+		"Comment":          "lines starting with the comment rune are dropped from the data",
+		"ReuseRecord":      "records share one backing slice: a row kept from an earlier Read changes under the next one",
+	}
 	for _, fn := range c.moduleFuncs() {
 		eachInstr(fn, func(ins ssa.Instruction) {
 			st, ok := ins.(*ssa.Store)
@@ -955,29 +960,47 @@ func ruleP4c(c *Ctx) {
 				return
 			}
 			fa, ok := st.Addr.(*ssa.FieldAddr)
-			if !ok || fieldName(fa) != "FieldsPerRecord" {
+			if !ok || structNameOfPtr(fa.X.Type()) != "Reader" {
 				return
 			}
-			n++
-			key := funcKey(fn) + "/FieldsPerRecord="
-			if k, isK := constInt64(st.Val); isK && k == 0 {
-				r.Discharge("P4c", key, c.P.pos(st.Pos()), "explicitly the default")
+			f := fieldName(fa)
+			why, watched := consequence[f]
+			if !watched || (only != nil && !only[f]) {
 				return
 			}
-			r.Finding("P4c", key, c.P.pos(st.Pos()), "the csv reader is told to accept records of varying length; createObject indexes a data row by header position and panics on a shorter row")
+			key := funcKey(fn) + "/" + f + "="
+			zero := false
+			if k, isK := st.Val.(*ssa.Const); isK {
+				if k.Value == nil {
+					zero = true
+				} else if v, isInt := constInt64(st.Val); isInt && v == 0 {
+					zero = true
+				} else if k.Value.String() == "false" {
+					zero = true
+				}
+			}
+			if zero {
+				r.Discharge(rule, key, c.P.pos(st.Pos()), "explicitly the default")
+				return
+			}
+			r.Finding(rule, key, c.P.pos(st.Pos()), why)
 		})
 	}
-	// the readers themselves: every csv.NewReader in the module
 	readers := 0
 	for _, fn := range c.moduleFuncs() {
 		eachInstr(fn, func(ins ssa.Instruction) {
 			if call, ok := ins.(*ssa.Call); ok && calleeName(&call.Call) == "encoding/csv.NewReader" {
 				readers++
-				r.Discharge("P4c", funcKey(fn)+"/csv.NewReader", c.P.pos(call.Pos()), "reader created with default FieldsPerRecord")
+				r.Discharge(rule, funcKey(fn)+"/csv.NewReader", c.P.pos(call.Pos()), "reader created with the package defaults")
 			}
 		})
 	}
 	if readers == 0 {
-		r.Note("P4c: no csv.NewReader call found in the module")
+		r.Note("%s: no csv.NewReader call found in the module", rule)
 	}
+}
+
+func ruleP4c(c *Ctx) {
+	c.R.Rule("P4c", "csv readers keep the default FieldsPerRecord (records are rectangular)", 1)
+	ruleCsvReaderOptions(c, "P4c", map[string]bool{"FieldsPerRecord": true})
 }
